@@ -76,6 +76,22 @@ def same_outcome(a, ea, b, eb):
     return poollog.tables_equal(a, b)
 
 
+def check_attributes(obj, step, what):
+    """getattr(obj, col) must be the column of the CURRENT table, for every column."""
+    if obj.df_features is None:
+        return None
+    for col in obj.df_features.columns:
+        got, e2 = outcome(lambda: getattr(obj, col))
+        ref = obj.df_features[col].to_numpy()
+        ok = e2 is None and (np.array_equal(np.asarray(got), ref) or
+                             (np.asarray(got).dtype.kind == 'f' and np.array_equal(np.asarray(got), ref, equal_nan=True)))
+        if not ok:
+            return {'mechanism': 'attribute-access', 'message': 'step %d (%s): attribute %s is not the column of the current table (%r)'
+                                                               % (step, what, col, e2)}
+    attach.count('eval:attribute_access', len(obj.df_features.columns))
+    return None
+
+
 def run_history(sh, case, driver='history'):
     """Execute a history on one object while the model follows; compare after every fit / recompute / load."""
     from bycycle import Bycycle
@@ -129,13 +145,10 @@ def run_history(sh, case, driver='history'):
                 fits += 1
                 sep = False
                 # attribute access returns the table's columns
-                for col in obj.df_features.columns:
-                    got, e2 = outcome(lambda: getattr(obj, col))
-                    if e2 is not None or not np.array_equal(np.asarray(got), obj.df_features[col].to_numpy(), equal_nan=False) and \
-                            not (np.asarray(got).dtype.kind == 'f' and np.array_equal(np.asarray(got), obj.df_features[col].to_numpy(), equal_nan=True)):
-                        vs.append({'mechanism': 'attribute-access', 'message': 'step %d: attribute %s: %r' % (step, col, e2)})
-                        break
-                attach.count('eval:attribute_access', len(obj.df_features.columns))
+                v = check_attributes(obj, step, 'after fit')
+                if v is not None:
+                    vs.append(v)
+                    break
         elif kind == 'recompute':
             r = op[1]
             if obj.df_features is None:
@@ -149,6 +162,10 @@ def run_history(sh, case, driver='history'):
                 vs.append({'mechanism': 'recompute-edges-differs-from-functional',
                            'message': 'step %d recompute_edges(%r): %s (reduced thresholds %s)' % (step, r, d, sh_.reduced(r))})
                 break
+            v = check_attributes(obj, step, 'after recompute_edges')
+            if v is not None:
+                vs.append(v)
+                break
             sep = True
         elif kind == 'load':
             src = sigs[op[1]]
@@ -158,6 +175,10 @@ def run_history(sh, case, driver='history'):
             obj.load(tab, src, fs, f_range)
             if obj.df_features is not tab or obj.sig is not src:
                 vs.append({'mechanism': 'load-did-not-set', 'message': 'step %d load' % step})
+                break
+            v = check_attributes(obj, step, 'after load')
+            if v is not None:
+                vs.append(v)
                 break
             sep = True
         elif kind == 'edit_sig':
